@@ -68,4 +68,8 @@ TLC_FIELDS = ("nodes", "par", "routines", "macros", "ops", "infos")
 
 
 def tlc_view(case: dict) -> dict:
-    return {k: case[k] for k in TLC_FIELDS}
+    v = {k: case[k] for k in TLC_FIELDS}
+    # strictSrc: a silent cycle in the SOURCE is a violation too (C02: the text must behave like a well-formed
+    # input, which has none); for C01/C05 such programs are outside the property's domain
+    v["strictSrc"] = bool(case.get("strictSrc", False))
+    return v
